@@ -1988,6 +1988,59 @@ fn main() {
             }
             std::process::exit(0);
         }
+        // iter_resume_after_read_fault : a table of 300 keys in 256-byte blocks is scanned forwards and backwards with a cold block cache
+        // while every step is given one chance to hit a failing read (only steps that load a new block read the file). After a
+        // failed step the scan resumes with seek(last key seen): the resumed scan must continue with exactly the keys that follow
+        // (no key skipped or repeated)
+        "iter_resume_after_read_fault" => {
+            use raindb::{RainDbIterator, ReadOptions, WriteOptions};
+            let fs = rdbv::faultfs::FaultFs::new();
+            let mk = |fs: &rdbv::faultfs::FaultFs| { let mut o = raindb::DbOptions::with_memory_env(); o.filesystem_provider = std::sync::Arc::new(fs.clone()); o.db_path = "db".to_string(); o.create_if_missing = true; o.max_block_size = 256; o };
+            let keys: Vec<Vec<u8>> = (0..300u32).map(|i| format!("k{:05}", i).into_bytes()).collect();
+            let db = raindb::DB::open(mk(&fs)).expect("open");
+            for k in &keys { db.put(WriteOptions::default(), k.clone(), vec![b'v'; 20]).unwrap(); }
+            // a level-0 table: its table iterator is a direct child of the merging iterator and lives as long as the scan; the
+            // memtable is empty afterwards; blocks are never cached (fill_cache = false), so every block crossing reads the file
+            db.hold_background_for_verif(true);
+            let _ = db.flush_to_level_zero_for_verif();
+            let (mut faults, mut bad, mut first) = (0usize, 0usize, String::new());
+            for forward in [true, false] {
+                let mut it = db.new_iterator(ReadOptions { fill_cache: false, snapshot: None }).unwrap();
+                let n = keys.len() as i64;
+                let mut pos: i64 = if forward { 0 } else { n - 1 };
+                let _ = if forward { it.seek_to_first() } else { it.seek_to_last() };
+                let mut guard = 0;
+                let mut retry = false;
+                while pos >= 0 && pos < n && guard < 5000 {
+                    guard += 1;
+                    let here = if it.is_valid() { it.current().map(|(k, _)| k.to_vec()) } else { None };
+                    if here.as_deref() != Some(keys[pos as usize].as_slice()) {
+                        bad += 1;
+                        if first.is_empty() { first = format!("{} scan: expected {} under the cursor, found {:?}", if forward { "forward" } else { "backward" }, String::from_utf8_lossy(&keys[pos as usize]), here.map(|k| String::from_utf8_lossy(&k).to_string())); }
+                        break;
+                    }
+                    let next_pos = if forward { pos + 1 } else { pos - 1 };
+                    if next_pos < 0 || next_pos >= n { break; }
+                    let before = fs.failures();
+                    if !retry { fs.fail_next_reads(".rdb", 1); }
+                    let _ = if forward { it.next() } else { it.prev() };
+                    fs.fail_next_reads(".rdb", 0);
+                    if fs.failures() > before {
+                        // the step hit the failing read: resume at the last key seen and take the step again (without a fault)
+                        faults += 1;
+                        retry = true;
+                        let _ = it.seek(&keys[pos as usize]);
+                        continue;
+                    }
+                    retry = false;
+                    pos = next_pos;
+                }
+            }
+            println!("faults_injected={}", faults);
+            println!("bad={}", bad);
+            println!("first_bad={}", first);
+            db.hold_background_for_verif(false);
+        }
         // lru_cache <capacity> op:key:value ... : the operations (insert / get / remove) on a real LRUCache<u64, u64>, next to an ordered
         // list (most recently used first) as reference: what every insert / get observed, len() at the end, and the values every
         // handle still reads at the end
